@@ -382,7 +382,7 @@ fn relay_build(cfg: &[u16]) -> Built {
     Built { cfg: c, prof, prelude_users: users, setup }
 }
 
-fn relay_owns(d: &Disc, _o: &StepOut) -> bool {
+fn relay_owns(d: &Disc, _o: &StepOut, _t: &Trace) -> bool {
     match d {
         Disc::Framing { .. } | Disc::Malformed { .. } => true,
         Disc::Missing { line, .. } | Disc::Extra { line, .. } => {
@@ -466,7 +466,7 @@ fn mask_build(cfg: &[u16]) -> Built {
     Built { cfg: c, prof, prelude_users: users, setup }
 }
 
-fn mask_owns(d: &Disc, out: &StepOut) -> bool {
+fn mask_owns(d: &Disc, out: &StepOut, _t: &Trace) -> bool {
     match d {
         Disc::Panic { .. } => true,
         Disc::AnyOf { set, .. } => set.iter().any(|l| ["474", "473", "464", "491"].contains(&l[1].as_str())),
